@@ -1537,7 +1537,8 @@ def add_invariant_checks(cls: ClassT) -> None:
             # in the method resolution order, overrides that member, the copy must not hide the override.
             native = _resolve_without_copies(cls=cls, name=name)
             if (
-                inspect.isfunction(native) or isinstance(native, property)
+                inspect.isfunction(native)
+                or isinstance(native, (property, _SLOT_WRAPPER_TYPE))
             ) and not _is_copy_of(copy=value, original=native):
                 value = native
                 unshadowed.add(name)
